@@ -26,7 +26,11 @@ type TierSel struct {
 	Costs    []string `json:"costs"`    // cost map pool entries used with Reordering masks
 	MaxPaths int      `json:"maxPaths"` // per unrolling
 	Thorough bool     `json:"-"`
-	Extra    []string `json:"extra"` // additional source texts
+	Seed     int64    `json:"-"`
+	// ConformMasks: optimisation subsets the conformance samples are run under (default 0, 5, 15)
+	ConformMasks []int    `json:"conformMasks"`
+	ConformN     int      `json:"conformSamples"` // concrete bindings per program (default 4)
+	Extra        []string `json:"extra"`          // additional source texts
 }
 
 // Selection is the "bounded" engine section of claims/<ID>.json.
@@ -69,6 +73,7 @@ func Run(env *core.Env, p *load.Program, prop string, sel json.RawMessage) (*cor
 	}
 	ts := s.tier(env.Tier)
 	ts.Thorough = env.Tier == "thorough"
+	ts.Seed = env.Seed
 	m, err := NewMachine(p)
 	if err != nil {
 		return nil, fmt.Errorf("bounded: %v", err)
@@ -214,7 +219,7 @@ type plan struct {
 }
 
 func jobKey(j Job) string {
-	return fmt.Sprintf("%s|%d|%v|%v|%s|%v|%v|%v|%s", j.Src, j.Mask, j.Ev, j.Dir, j.Costs, j.Redump, j.FPOnly, j.Run, j.Gen)
+	return fmt.Sprintf("%s|%d|%v|%v|%s|%v|%v|%v|%s|%d", j.Src, j.Mask, j.Ev, j.Dir, j.Costs, j.Redump, j.FPOnly, j.Run, j.Gen, len(j.Samples))
 }
 
 func (pl *plan) addJob(j Job) int {
@@ -293,6 +298,19 @@ func newPlan(s *Selection, ts TierSel, srcs []*Src, families bool) *plan {
 		if s.has("trace") {
 			for _, m := range masks {
 				pl.want(src, Job{Src: text, Mask: m, Undef: undef}, "trace")
+			}
+		}
+		if s.has("conform") {
+			cm := ts.ConformMasks
+			if len(cm) == 0 {
+				cm = []int{0, 5, 15}
+			}
+			n := ts.ConformN
+			if n <= 0 {
+				n = 4
+			}
+			for _, m := range cm {
+				pl.want(src, Job{Src: text, Mask: m, Undef: undef, Samples: MakeSamples(text, ts.Seed+int64(m), n)}, "conform")
 			}
 		}
 		if rels := s.hasAny([]string{"compile-calls", "eval-twice"}); len(rels) > 0 {
@@ -501,6 +519,8 @@ func (pl *plan) generate(cx *Checker, progs map[int]*XProg) []*core.Obl {
 					obls = append(obls, cx.EvalLR(c)...)
 				case "trace":
 					obls = append(obls, cx.Trace(c)...)
+				case "conform":
+					obls = append(obls, cx.Conform(c, pc.job.Samples))
 				case "redump":
 					obls = append(obls, cx.Redump(c)...)
 				case "ev-dump":
